@@ -112,6 +112,19 @@ void canLike(Ctx& c, Rng& r, bool fd, long forcedLen)
     Checker ck{c, fd ? "CanFdPayload" : "CanPayload", ""};
     P obj;
     wire::Can sh;
+    if (forcedLen < 0 ? r.chance(1, 3) : (forcedLen % 3 == 1))
+    {
+        // prior content that did not come from setData: an object built from wire bytes (as the decoder produces them),
+        // error free but with an arbitrary DLC / reserved bits, possibly of exactly the length that is set next
+        Bytes raw = genPayload(fd ? K_CANFD : K_CAN, 16 + (forcedLen >= 0 ? static_cast<size_t>(forcedLen) : pickLen8(r)), r);
+        raw[14] = static_cast<uint8_t>(r.below(16));
+        wire::set16(raw.data() + 2, 0);
+        wire::set32(raw.data() + 8, wire::get32(raw.data() + 8) & (fd ? 0xC1FFFFFFu : 0x80007FFFu));
+        obj = P(raw.data(), raw.size());
+        sh = wire::Can::parse(raw.data(), raw.size(), fd);
+        ck.history += "constructed-from-wire-bytes(len=" + std::to_string(raw.size() - 16) + ",dlc=" + std::to_string(raw[14]) + ") ";
+        c.count("prior_content_from_wire_bytes");
+    }
     size_t steps = forcedLen >= 0 ? 1 : r.range(1, 6);
     size_t prevLen = 0;
     for (size_t i = 0; i < steps; ++i)
@@ -159,6 +172,16 @@ inline void lin(Ctx& c, Rng& r, long forcedLen)
     Checker ck{c, "LinPayload", ""};
     ASAM::CMP::LinPayload obj;
     wire::Lin sh;
+    if (forcedLen < 0 ? r.chance(1, 3) : (forcedLen % 3 == 1))
+    {
+        Bytes raw = genPayload(K_LIN, 8 + (forcedLen >= 0 ? static_cast<size_t>(forcedLen) : pickLen8(r)), r);
+        wire::set16(raw.data() + 2, 0);
+        raw[5] = 0;
+        obj = ASAM::CMP::LinPayload(raw.data(), raw.size());
+        sh = wire::Lin::parse(raw.data(), raw.size());
+        ck.history += "constructed-from-wire-bytes(len=" + std::to_string(raw.size() - 8) + ") ";
+        c.count("prior_content_from_wire_bytes");
+    }
     size_t steps = forcedLen >= 0 ? 1 : r.range(1, 6);
     size_t prevLen = 0;
     for (size_t i = 0; i < steps; ++i)
@@ -197,6 +220,15 @@ inline void eth(Ctx& c, Rng& r, long forcedLen)
     Checker ck{c, "EthernetPayload", ""};
     ASAM::CMP::EthernetPayload obj;
     wire::Eth sh;
+    if (forcedLen < 0 ? r.chance(1, 3) : (forcedLen % 3 == 1))
+    {
+        Bytes raw = genPayload(K_ETH, 6 + (forcedLen >= 0 ? static_cast<size_t>(forcedLen) : r.below(100)), r);
+        wire::set16(raw.data() + 2, 0);
+        obj = ASAM::CMP::EthernetPayload(raw.data(), raw.size());
+        sh.flags = wire::get16(raw.data());
+        ck.history += "constructed-from-wire-bytes(len=" + std::to_string(raw.size() - 6) + ") ";
+        c.count("prior_content_from_wire_bytes");
+    }
     size_t steps = forcedLen >= 0 ? 1 : r.range(1, 5);
     size_t prevLen = 0;
     for (size_t i = 0; i < steps; ++i)
@@ -231,6 +263,19 @@ inline void analog(Ctx& c, Rng& r, long forcedLen)
     Checker ck{c, "AnalogPayload", ""};
     ASAM::CMP::AnalogPayload obj;
     wire::Analog sh;
+    if (forcedLen < 0 ? r.chance(1, 3) : (forcedLen % 3 == 1))
+    {
+        Bytes raw = genPayload(K_ANALOG, 16 + (forcedLen >= 0 ? static_cast<size_t>(forcedLen) : r.below(100)), r);
+        raw[2] = 0;
+        obj = ASAM::CMP::AnalogPayload(raw.data(), raw.size());
+        sh.flags = wire::get16(raw.data());
+        sh.unit = raw[3];
+        sh.intervalBits = wire::get32(raw.data() + 4);
+        sh.offsetBits = wire::get32(raw.data() + 8);
+        sh.scalarBits = wire::get32(raw.data() + 12);
+        ck.history += "constructed-from-wire-bytes ";
+        c.count("prior_content_from_wire_bytes");
+    }
     size_t steps = forcedLen >= 0 ? 1 : r.range(1, 5);
     size_t prevLen = 0;
     for (size_t i = 0; i < steps; ++i)
@@ -287,6 +332,21 @@ inline void cm(Ctx& c, Rng& r, long forced)
     Checker ck{c, "CaptureModulePayload", ""};
     ASAM::CMP::CaptureModulePayload obj;
     wire::Cm sh;
+    if (forced < 0 ? r.chance(1, 3) : (forced % 3 == 1))
+    {
+        Bytes raw = genPayload(K_CM, 44 + r.below(120), r);
+        raw[24] = 0;
+        obj = ASAM::CMP::CaptureModulePayload(raw.data(), raw.size());
+        sh.uptime = wire::get64(raw.data());
+        sh.gmIdentity = wire::get64(raw.data() + 8);
+        sh.gmClockQuality = wire::get32(raw.data() + 16);
+        sh.utcOffset = wire::get16(raw.data() + 20);
+        sh.timeSource = raw[22];
+        sh.domain = raw[23];
+        sh.gptpFlags = raw[25];
+        ck.history += "constructed-from-wire-bytes ";
+        c.count("prior_content_from_wire_bytes");
+    }
     size_t steps = forced >= 0 ? 1 : r.range(1, 5);
     size_t prevTotal = 0;
     for (size_t i = 0; i < steps; ++i)
@@ -366,6 +426,24 @@ inline void iface(Ctx& c, Rng& r, long forced)
     Checker ck{c, "InterfacePayload", ""};
     ASAM::CMP::InterfacePayload obj;
     wire::If sh;
+    if (forced < 0 ? r.chance(1, 3) : (forced % 3 == 1))
+    {
+        Bytes raw = genPayload(K_IF, 40 + r.below(60), r);
+        wire::set16(raw.data() + 30, 0);
+        obj = ASAM::CMP::InterfacePayload(raw.data(), raw.size());
+        sh.interfaceId = wire::get32(raw.data());
+        sh.msgTotalRx = wire::get32(raw.data() + 4);
+        sh.msgTotalTx = wire::get32(raw.data() + 8);
+        sh.msgDroppedRx = wire::get32(raw.data() + 12);
+        sh.msgDroppedTx = wire::get32(raw.data() + 16);
+        sh.errorsTotalRx = wire::get32(raw.data() + 20);
+        sh.errorsTotalTx = wire::get32(raw.data() + 24);
+        sh.interfaceType = raw[28];
+        sh.interfaceStatus = raw[29];
+        sh.featureBitmask = wire::get32(raw.data() + 32);
+        ck.history += "constructed-from-wire-bytes ";
+        c.count("prior_content_from_wire_bytes");
+    }
     size_t steps = forced >= 0 ? 2 : r.range(1, 6);
     size_t prevIds = 0;
     for (size_t i = 0; i < steps; ++i)
